@@ -68,7 +68,8 @@ Qed.
 (* ------------------------------------------------------------------ what the readers return *)
 Lemma rd_suffix k r d r' : rd k r = Some (d, r') -> suffix r' r /\ d = takeN k r.
 Proof.
-  unfold rd. destruct r; [discriminate|]. intro E. inversion E; subst. split; [apply suffix_dropN|reflexivity].
+  unfold rd. destruct r as [|x t]; [discriminate|]. intro E. injection E as E1 E2. subst d r'.
+  split; [exact (suffix_dropN k (x :: t))|reflexivity].
 Qed.
 Lemma srd_suffix s k r d r' : srd s k r = Some (d, r') -> suffix r' r /\ d = takeN k r.
 Proof.
@@ -177,7 +178,7 @@ Proof. unfold dec_hashed. destruct (rd 32 r) as [[d r0]|]; [|exact I]. destruct 
 Section Total.
 Variable st : bool * bool.
 
-Lemma decode_leaf_okerr fixed v l r : okerr (decode_leaf st fixed v l r).
+Lemma decode_leaf_okerr v l r : okerr (decode_leaf st v l r).
 Proof.
   unfold decode_leaf. apply okerr_obind; [apply decode_key_okerr|]. intros [pk r1] _.
   destruct v; try (apply okerr_obind; [apply okerr_relabel, dec_bytes_okerr|intros [z ?] _; exact I]).
